@@ -5,7 +5,7 @@ D=/verif/seeded/$S
 PATCH=$D/patch.diff; [ -f $D/patch.rebased.diff ] && PATCH=$D/patch.rebased.diff
 cd /repo && git diff --quiet || { echo "/repo not clean"; exit 3; }
 git apply $PATCH || { echo "$S: patch does not apply"; exit 3; }
-cd /verif && VERIF_NO_RETRY= ./check $P $TIER > .work/logs/seed-$S-$P-$TIER.out 2>&1; RC=$?
+cd /verif && VERIF_NO_REPLAY=${NO_REPLAY:-1} VERIF_EVIDENCE_DIR=/verif/.work/seed-evidence/$S ./check $P $TIER > .work/logs/seed-$S-$P-$TIER.out 2>&1; RC=$?
 git -C /repo checkout -- .
 V=$(grep -c "^VIOLATION" .work/logs/seed-$S-$P-$TIER.out)
 H=$(grep -E "^\s+\S+\s+VIOLATION" .work/logs/seed-$S-$P-$TIER.out | awk '{print $1}' | tr '\n' ' ')
